@@ -24,6 +24,7 @@ import (
 	"archive/zip"
 	"bytes"
 	"context"
+	"errors"
 	"fmt"
 	"io"
 	"os"
@@ -174,6 +175,9 @@ func newSandbox(backend string, t *treeSpec, hook *cancelHook) (*sandbox, error)
 	if err := afero.WriteFile(x.raw, x.Z, t.zipData, 0o644); err != nil {
 		return nil, err
 	}
+	if err := x.raw.Mkdir(filepath.Join(x.root, "empty-dir"), 0o755); err != nil {
+		return nil, err
+	}
 	if backend == "os" {
 		// symbolic links next to the tree (arguments of the removal entry points: a link is itself something to remove)
 		for name, target := range map[string]string{"lnk-dir": x.S, "lnk-file": x.big, "lnk-dangling": filepath.Join(x.root, "nothing-here")} {
@@ -265,6 +269,43 @@ type scenario struct {
 	RenameFails bool
 	Concurrent  bool
 	OSOnly      bool // needs symbolic links
+	// ArgShape != "": the entry point's main path argument (the source tree or the big file) is replaced by a path of
+	// another shape; such scenarios are only run with the context already done at the call
+	ArgShape string
+}
+
+// argShapes: what the main path argument may be instead of what the entry point expects.
+var argShapes = []string{"swapped", "missing", "empty-directory", "link-to-directory", "link-to-file", "dangling-link"}
+
+// reshape replaces the first argument that is the source tree or the big file.
+func (x *sandbox) reshape(args []any, shape string) ([]any, bool) {
+	for i, a := range args {
+		p, ok := a.(string)
+		if !ok || (p != x.S && p != x.big) {
+			continue
+		}
+		out := append([]any(nil), args...)
+		switch shape {
+		case "swapped": // a file where a tree is expected and the other way round
+			if p == x.S {
+				out[i] = x.big
+			} else {
+				out[i] = x.S
+			}
+		case "missing":
+			out[i] = filepath.Join(x.root, "no-such-entry")
+		case "empty-directory":
+			out[i] = filepath.Join(x.root, "empty-dir")
+		case "link-to-directory":
+			out[i] = filepath.Join(x.root, "lnk-dir")
+		case "link-to-file":
+			out[i] = filepath.Join(x.root, "lnk-file")
+		case "dangling-link":
+			out[i] = filepath.Join(x.root, "lnk-dangling")
+		}
+		return out, true
+	}
+	return args, false
 }
 
 // Numbers of backend operations of the building blocks (read off files.go; the extended file's Close is called
@@ -488,6 +529,8 @@ func getTree(name string) *treeSpec {
 	return trees[name]
 }
 
+var errNoPathArgument = errors.New("the entry point has no main path argument to reshape")
+
 func execRun(sc *scenario, spec runSpec) (res runResult, engineErr error) {
 	hook := &cancelHook{k: spec.K, renameFails: sc.RenameFails}
 	x, err := newSandbox(spec.Backend, getTree(spec.Tree), hook)
@@ -513,7 +556,14 @@ func execRun(sc *scenario, spec runSpec) (res runResult, engineErr error) {
 		return res, fmt.Errorf("the filesystem has no method %s", method)
 	}
 	in := []reflect.Value{reflect.ValueOf(ctx)}
-	for i, a := range sc.Args(x) {
+	args := sc.Args(x)
+	if sc.ArgShape != "" {
+		var ok bool
+		if args, ok = x.reshape(args, sc.ArgShape); !ok {
+			return res, errNoPathArgument
+		}
+	}
+	for i, a := range args {
 		v := reflect.ValueOf(a)
 		if !v.IsValid() { // untyped nil
 			v = reflect.Zero(mv.Type().In(i + 1))
